@@ -14,7 +14,8 @@ class RankFailed(Exception):
     pass
 
 
-def run(workers, recipe, rng: random.Random, faults=(), stop_after="tags"):
+def run(workers, recipe, rng: random.Random, faults=(), stop_after="tags",
+        shuffle=True):
     """returns dict(status per rank, partitions, numbered, next_tags, texts,
     local violations, stats)"""
     n = recipe["nranks"]
@@ -79,13 +80,14 @@ def run(workers, recipe, rng: random.Random, faults=(), stop_after="tags"):
                 res[r] = None
         elif name == "allreduce":
             order = list(range(n))
-            if pending[0][4]:
+            commute = pending[0][4] and shuffle
+            if commute:
                 rng.shuffle(order)
                 if order != sorted(order):
                     stats["fold_orders_shuffled"] += 1
             seq = [blobs[q] for q in order]
             while len(seq) > 1:
-                j = rng.randrange(len(seq) - 1) if pending[0][4] else 0
+                j = rng.randrange(len(seq) - 1) if commute else 0
                 folder = rng.randrange(n)      # any rank has the op
                 ws[folder].write_msg(("fold", seq[j], seq[j + 1]))
                 kind, blob = ws[folder].read_msg()
